@@ -39,10 +39,37 @@ Definition old_copy_writer (e : env) (s : fs) (p : path) (cid resmode filemode :
   bind (mkdirs e None (ancestors e p) s1) (fun s2 =>
   bind (fs_copy e s2 p cid resmode) (fun s3 => fs_chmod e s3 p filemode))).
 
-Definition old_dir_fs : fs := upd (upd empty_fs 1 (mkF 0 493 true true)) 2 (mkF 0 493 true true).
+Definition old_dir_fs : fs := wit_dir_fs.
 
 Theorem copy_into_directory_before_7df01dd :
   let r := old_copy_writer (wit_env false) old_dir_fs 2 1070002 416 292 in
   snd r = Ok /\ fs_is_dir (fst r) 2 = true /\ obs (fst r 2) = Some (0, 292) /\
   old_dir_fs 3 = None /\ obs (fst r 3) = Some (1070002, 416).
+Proof. vm_compute. repeat split; reflexivity. Qed.
+
+(* ---- code BEFORE fix 84a8551 (finding F-SYMLINK-TARGET, status fixed) --------------------------------------------------------
+   The gate of 7df01dd looked at exists()/is_dir() only, both of which FOLLOW symbolic links.  (a) A dangling link at a target
+   under --no-overwrite: exists() False, no conflict, the file is created at the link's destination (9: outside the output
+   directory).  (b) A live link to a foreign read-only file with overwriting allowed: the foreign file is chmod-ed and rewritten.
+   Documented on the primitives of the current model with that gate written out by hand. *)
+Definition gate_7df01dd (e : env) (s : fs) (p : path) (allow : bool) : fs * result :=
+  if fs_exists_at e s (resolve e p)
+  then (if allow && negb (fs_is_dir s (resolve e p)) then fs_chmod e s (resolve e p) (N.lor (fs_st_mode s (resolve e p)) 144)
+        else (s, Err EExists))
+  else (s, Ok).
+
+Definition writer_7df01dd (e : env) (s : fs) (p : path) (allow : bool) (cid filemode : N) : fs * result :=
+  bind (gate_7df01dd e s p allow) (fun s1 =>
+  bind (mkdirs e None (ancestors e p) s1) (fun s2 =>
+  bind (fs_write e s2 (resolve e p) cid) (fun s3 => fs_chmod e s3 (resolve e p) filemode))).
+
+Theorem dangling_link_no_overwrite_before_84a8551 :
+  let r := writer_7df01dd (wit_env_link false) wit_dirs 4 false 1070004 292 in
+  links (wit_env_link false) 4 = Some 9 /\ wit_dirs 9 = None /\ snd r = Ok /\ obs (fst r 9) = Some (1070004, 292).
+Proof. vm_compute. repeat split; reflexivity. Qed.
+
+Theorem live_link_overwrite_before_84a8551 :
+  let s := upd wit_dirs 9 (mkF 55 292 true false) in
+  let r := writer_7df01dd (wit_env_link false) s 4 true 1070004 292 in
+  obs (s 9) = Some (55, 292) /\ snd r = Ok /\ obs (fst r 9) = Some (1070004, 292).
 Proof. vm_compute. repeat split; reflexivity. Qed.
